@@ -60,8 +60,8 @@ pub fn generate(seed: u64, tier: &str, sink: &mut Sink) {
             let nreads = if size >= 4096 {
                 crate::p_c01::pieces(&spec_, segs.len(), max_buf) + payload.len() / size + 3
             } else {
-                // every read may return as little as one segment's worth
-                segs.len() + must / size + 3
+                // every read may return as little as one segment's worth, and never more than one chunk piece
+                segs.len() + crate::p_c01::pieces(&spec_, 0, max_buf) + must / size + 3
             };
             if nreads > 6000 {
                 continue;
